@@ -469,3 +469,56 @@ def render_trivia(f, rng, mode):
                 s += comment() + (ws() if rng.random() < 0.5 else "")
         out.append(s)
     return "".join(out)
+
+
+def add_forward_refs(rng, fs, prob=0.5):
+    """make some object parameters of an interface name an interface that the SAME file declares
+    further down (accepted by the compiler: symbols are file-global).  Returns the number of
+    parameters changed.  Only single typed/untyped objects and object arrays are retargeted, so
+    every rule about parameter lists keeps holding."""
+    changed = 0
+    all_ifaces = {d[1] for f in fs["files"] for d in f["decls"] if d[0] == "iface"}
+    for f in fs["files"]:
+        names = [d[1] for d in f["decls"] if d[0] == "iface"]
+        for i, d in enumerate(f["decls"]):
+            if d[0] != "iface":
+                continue
+            later = names[names.index(d[1]) + 1:]
+            if not later:
+                continue
+            ms = []
+            for m in d[3]:
+                if m[0] == "method":
+                    ps = []
+                    for (dr, t, sh, pn) in m[2]:
+                        is_obj = t == "interface" or t in all_ifaces
+                        if is_obj and rng.random() < prob:
+                            t = rng.choice(later)
+                            changed += 1
+                        ps.append((dr, t, sh, pn))
+                    m = (m[0], m[1], ps, m[3], m[4])
+                ms.append(m)
+            f["decls"][i] = ("iface", d[1], d[2], ms)
+    return changed
+
+
+def has_forward_ref(fs, path=None):
+    """does a method of some interface (of file `path`, or of any file) name an interface that its
+    own file declares further down?"""
+    for f in fs["files"]:
+        if path is not None and f["path"] != path:
+            continue
+        names = [d[1] for d in f["decls"] if d[0] == "iface"]
+        for d in f["decls"]:
+            if d[0] == "iface":
+                later = names[names.index(d[1]) + 1:]
+                for m in d[3]:
+                    if m[0] == "method" and any(t in later for (_, t, _, _) in m[2]):
+                        return True
+            if d[0] == "struct":
+                # a struct field may name a later interface too
+                idx = f["decls"].index(d)
+                later = [x[1] for x in f["decls"][idx + 1:] if x[0] == "iface"]
+                if any(ft in later for (ft, c, fn) in d[2]):
+                    return True
+    return False
